@@ -98,7 +98,8 @@ fn new_header(prev: &Header, time: u32, bits: CompactTarget, salt: u32) -> Heade
 }
 
 fn load_real_headers() -> Vec<Header> {
-    let text = std::fs::read_to_string("/repo/validation/tests/data/headers.csv").unwrap_or_default();
+    let repo = std::env::var("VERIF_REPO").unwrap_or_else(|_| "/repo".to_string());
+    let text = std::fs::read_to_string(format!("{repo}/validation/tests/data/headers.csv")).unwrap_or_default();
     let mut v = vec![];
     for line in text.lines().skip(1) {
         let f: Vec<&str> = line.split(',').collect();
